@@ -509,6 +509,15 @@ where
         // check if a connection error occurred on a stream
         let _ = self.poll_connection_error(cx)?;
 
+        if self.send_grease_stream_flag && self.got_peer_settings {
+            //= https://www.rfc-editor.org/rfc/rfc9114#section-6.2.3
+            //# They MAY also be
+            //# sent on connections where no data is currently being transferred.
+            // Drive the optional grease stream here: a control frame that was already taken off
+            // the control stream must never wait for (and be dropped because of) its progress.
+            let _ = self.poll_grease_stream(cx);
+        }
+
         let recv = {
             // TODO
             self.poll_accept_recv(cx)?;
@@ -644,13 +653,6 @@ where
                 )));
             }
         };
-
-        if self.send_grease_stream_flag {
-            //= https://www.rfc-editor.org/rfc/rfc9114#section-6.2.3
-            //# They MAY also be
-            //# sent on connections where no data is currently being transferred.
-            ready!(self.poll_grease_stream(cx));
-        }
 
         Poll::Ready(Ok(res))
     }
